@@ -30,6 +30,7 @@ func main() {
 	// several databases on one cluster + the replica-side database filter (MultiDB.tla)
 	multidb.Stage(rep, args)
 	commitDuringJoin(rep)
+	shmWriteBack(rep)
 	if only == "" {
 		t3.Stage(rep, args, map[string]bool{"C01": true})
 	}
